@@ -146,6 +146,16 @@ def corpus():
         "fork-forget": L.fire_forget(1, "V"),
         "fork-fail-join": L.fork_fail_join("L"),
         "fork-value": fork_thread(L.inc(1)),
+        # evaluation that continues under a forking job that has already concluded
+        "fork-seq-join": L.joiner(L.fork_seq(3)),
+        "fork-cond-join": L.joiner(L.fork_cond(0)),
+        "fork-cond-join-else": L.joiner(L.fork_cond(4)),
+        "fork-map-join": L.joiner(L.fork_map(3)),
+        "fork-catch-join": L.joiner(L.fork_catch("V")),
+        "fork-lazy-call-join": L.joiner(L.fork_lazy_call(2)),
+        "fork-deep-fail-join": L.joiner(L.fork_deep(1, "K")),
+        "fork-two-threads": L.join_all([L.fork_seq(2), L.fork_map(2), L.fork_cond(1)]),
+        "fork-multi-never-joined": L.const(1, L.fork_deep(0, "V")),
         "recursion": L.rsum(4),
         "deep-failure": L.fail_after(3, "S"),
         "two-errors": [L.raiser("V", 1), L.raiser("K", 2)],
